@@ -24,7 +24,7 @@ CONSTANTS L,          \* box edge in lattice units
           Grid,       \* set of start points (lattice points)
           Bundle,     \* Seq of direction ids 1..6: the vector bundle given to update_positions
           MaxIter,    \* RandomWalk.maxiter: a placement gives up at the (MaxIter+1)-th rejected draw
-          MaxReject,  \* model bound on the total number of rejected draws / starts in a behaviour
+          MaxReject,  \* model bound on the total number of rejected draws / starts in a behaviour (negative: no bound, `rejects` frozen)
           Dev
 VARIABLES pos, mol, k, bundle, draws, rejects, pc, last
 vars == <<pos, mol, k, bundle, draws, rejects, pc, last>>
@@ -46,6 +46,8 @@ DropAt(s, i) == SubSeq(s, 1, i - 1) \o SubSeq(s, i + 1, Len(s))
 Init == /\ pos = [m \in 1..NMol |-> [i \in 1..Chains[m] |-> None]]
         /\ mol = 1 /\ k = 1 /\ bundle = Bundle /\ draws = 0 /\ rejects = 0 /\ pc = "start" /\ last = [ev |-> "init"]
 
+CanReject == MaxReject < 0 \/ rejects < MaxReject
+BumpRejects == IF MaxReject < 0 THEN rejects ELSE rejects + 1
 \* _handle_random_walk draws a grid point; _random_walk accepts it iff the root does not overlap
 StartOk(g) == /\ pc = "start" /\ mol <= NMol /\ Free(g)
               /\ pos' = [pos EXCEPT ![mol][1] = g]
@@ -53,8 +55,8 @@ StartOk(g) == /\ pc = "start" /\ mol <= NMol /\ Free(g)
               /\ pc' = IF Chains[mol] = 1 THEN "accept" ELSE "grow"
               /\ last' = [ev |-> "start", m |-> mol, g |-> g, ok |-> TRUE]
               /\ UNCHANGED <<mol, rejects>>
-StartRejected(g) == /\ pc = "start" /\ mol <= NMol /\ ~Free(g) /\ rejects < MaxReject
-                    /\ rejects' = rejects + 1 /\ pc' = "abandon"
+StartRejected(g) == /\ pc = "start" /\ mol <= NMol /\ ~Free(g) /\ CanReject
+                    /\ rejects' = BumpRejects /\ pc' = "abandon"
                     /\ last' = [ev |-> "start", m |-> mol, g |-> g, ok |-> FALSE]
                     /\ UNCHANGED <<pos, mol, k, bundle, draws>>
 \* one draw of update_positions: index i into the current bundle
@@ -65,8 +67,8 @@ DrawAccept(i) == /\ pc = "grow" /\ i \in 1..Len(bundle) /\ Free(Target(i))
                  /\ pc' = IF k = Chains[mol] THEN "accept" ELSE "grow"
                  /\ last' = [ev |-> "draw", m |-> mol, r |-> k, i |-> i, to |-> Target(i), ok |-> TRUE]
                  /\ UNCHANGED <<mol, rejects>>
-DrawReject(i) == /\ pc = "grow" /\ i \in 1..Len(bundle) /\ ~Free(Target(i)) /\ rejects < MaxReject
-                 /\ rejects' = rejects + 1
+DrawReject(i) == /\ pc = "grow" /\ i \in 1..Len(bundle) /\ ~Free(Target(i)) /\ CanReject
+                 /\ rejects' = BumpRejects
                  /\ last' = [ev |-> "draw", m |-> mol, r |-> k, i |-> i, to |-> Target(i), ok |-> FALSE]
                  /\ IF draws = MaxIter
                     THEN /\ pc' = "abandon" /\ UNCHANGED <<bundle, draws>>
